@@ -29,5 +29,5 @@ def run(chk, replay=None):
     vcheck.absorb_sim(chk, rp, 'NixFrame', 'MC_NixFrame_sim.cfg', 300 if chk.thorough else 30, 20)
     chk.traces_validated = len(chk.distinct)
     chk.rule = ('one case per transition of all rows(n) / writeRow / writeCells / writeColumn(offset,count) / reopen histories (BFS exhaustive: %d model columns, '
-                '<=%d rows, depth %d), incl. writes past the last row; executed per column-type rotation (seed); every cell read through 5 paths') % (cols, 3 if chk.thorough else 2, 5)
+                '<=%d rows, depth %d) plus every step of long random histories (depth 20), incl. writes past the last row; executed per column-type rotation (seed); every cell read through readRow, readCell, readCells and every readColumn overload x offset x count') % (cols, 3, 5 if chk.thorough else 4)
     chk.assumptions += ['cell values from a per-type dictionary; Bool columns are written cell-wise (std::vector<bool> cannot be passed to writeColumn)', 'trusted: TLC, harness/h_frame.cpp']
